@@ -7,8 +7,31 @@ def run(F, ctx):
         "Decides one clause of why-not truthfulness, by sibling agreement inside the explainer: when a clause is blocked because a negated atom matches a fact, that fact may "
         "belong to a relation defined by rules, whose facts live in the derived data. Rule: in explain_why_not, the arm that handles a negated atom reads every fact source "
         "of the proof context (base data, derived data) that the arm for a positive atom reads. Otherwise the real blocker is missed and another, untrue one "
-        "(`head_unification_failed`) is reported. Not decided: that every reported blocker holds for the tuple, that a derived tuple is never reported as blocked (run-time data)."
+        "(`head_unification_failed`) is reported. (b) The lookup shared by the explainer and the prover compares a bound term with a stored value through the prover's own "
+        "comparator values_equal (which identifies the two integer widths), never through the derived equality of Value / Tuple. Not decided: that every reported blocker holds for the tuple, that a derived tuple is never reported as blocked (run-time data)."
     )
     ctx.rule("R-C23-a", "explain_why_not: a negated atom is checked against the same fact sources as a positive atom", floor=1)
     provrules.check(F, ctx, "provenance::why_not::explain_why_not", "C23", "the blocker that really prevents the derivation (a derived fact matching the negated atom) is not reported and an untrue one is")
+    ctx.end_rule()
+
+    # ---- b: lookups compare values with the prover's own comparator
+    import re
+    from ..core import CheckError
+    ctx.rule("R-C23-b", "find_matching_tuples compares bound terms with stored values through values_equal only (Int32 / Int64 of one number are the same value)", floor=2)
+    scope = F.with_closures("provenance::unification::find_matching_tuples")
+    strict, loose = [], []
+    for n in sorted(scope):
+        for c in F.fn(n).normal_calls():
+            sa = c.static_args or ""
+            if re.search(r"<&?(value::Value|value::Tuple|std::vec::Vec<value::Value>|\[value::Value\]) as std::cmp::PartialEq(<.*>)?>::(eq|ne)$", sa):
+                strict.append(c)
+            if (c.resolved or "") == "provenance::unification::values_equal":
+                loose.append(c)
+    if len(loose) < 2:
+        raise CheckError("find_matching_tuples: expected its two values_equal comparisons (positive control), found %d" % len(loose))
+    for c in loose:
+        ctx.site("comparison through values_equal", c.where(), ok=True)
+    for c in strict:
+        ctx.site("strict equality on Value / Tuple", c.where(), ok=False)
+        ctx.violation("provenance::unification::find_matching_tuples:R-C23-b:strict-equality", "find_matching_tuples compares with the derived `==` of Value / Tuple, which distinguishes Int32(7) from Int64(7); aggregate and arithmetic columns are Int64 while literals that fit are Int32, so a fully bound lookup misses the stored row: a derived tuple is reported blocked (`No matching tuples in score`) and a negation blocker is missed", c.where())
     ctx.end_rule()
